@@ -1,10 +1,10 @@
 package main
 
 import (
-	"errors"
 	"bytes"
 	"encoding/json"
 	"encoding/xml"
+	"errors"
 	"fmt"
 	"net/http"
 	"net/http/httptest"
